@@ -23,7 +23,7 @@ ROOTS = {
     "groupstroke": f'<svg {NS} viewBox="0 0 100 100" width="100" height="100"><g opacity="0.5"><rect x="10" y="10" width="40" height="40" fill="red"/><circle cx="50" cy="50" r="20" fill="blue" stroke="black" stroke-width="3"/></g><line x1="0" y1="90" x2="100" y2="90" stroke="green" stroke-width="2"/><rect width="0" height="5"/></svg>',
     "nestclip": f'<svg {NS} viewBox="0 0 100 100" width="100" height="100"><defs><clipPath id="c"><circle cx="50" cy="50" r="30"/></clipPath></defs><svg x="10" y="10" width="50" height="50" viewBox="0 0 100 100"><rect x="-20" y="20" width="140" height="30" fill="purple"/></svg><rect x="20" y="20" width="60" height="60" fill="orange" clip-path="url(#c)"/><?pi x?><symbol><rect width="3" height="3"/></symbol></svg>',
     "gradxf": f'<svg {NS} viewBox="0 0 100 100" width="100" height="100"><defs><linearGradient id="g"><stop offset="0" stop-color="red"/><stop offset="1" stop-color="blue"/></linearGradient></defs><rect x="10" y="10" width="50" height="30" fill="url(#g)" transform="translate(5 5) rotate(10)"/><path d="M10,60 L40,60 L40,90 Z M-50,-50 L-40,-50 L-40,-40 Z" fill="url(#g)"/></svg>',
-    "styled": f'<svg {NS} viewBox="0 0 100 100" width="100" height="100"><g style="fill:red;stroke-width:3" id="g1"><rect x="5" y="5" width="30" height="20" style="stroke:blue;fill:green"/><g style="stroke:black"><circle cx="60" cy="30" r="12"/><path d="M10,60 h30 v20 z" style="stroke:none" fill="gold"/></g></g><rect x="60" y="60" width="20" height="20" fill="navy"/></svg>',
+    "styled": f'<?xml-stylesheet href="a.css"?><svg xmlns="http://www.w3.org/2000/svg" viewBox="0 0 100 100" width="100" height="100"><g style="fill:red;stroke-width:3" id="g1"><rect x="5" y="5" width="30" height="20" style="stroke:blue;fill:green"/><g style="stroke:black"><circle cx="60" cy="30" r="12"/><path d="M10,60 h30 v20 z" style="stroke:none" fill="gold"/></g></g><rect x="60" y="60" width="20" height="20" fill="navy"/></svg>',
     "vpclip": f'<svg {NS} viewBox="0 0 100 100"><defs><clipPath id="c"><path d="M10,10 H60 V60 H10 Z M25,25 H45 V45 H25 Z"/></clipPath><rect id="t" width="12" height="9" fill="teal"/></defs><svg x="5" y="5" viewBox="0 0 50 50"><rect x="-10" y="10" width="70" height="12" fill="purple"/></svg><g clip-path="url(#c)"><rect x="5" y="5" width="70" height="70" fill="orange"/><use xlink:href="#t" x="20" y="30"/></g></svg>',
     "pico": f'<svg {NS} viewBox="0 0 100 100"><defs/><path d="M10,10 L40,10 L40,40 Z" fill="red"/><g opacity="0.5"><path d="M20,20 L60,20 L60,60 Z"/><path d="M30,30 L70,30 L70,70 Z" fill="blue"/></g></svg>',
 }
